@@ -200,6 +200,7 @@ def check(run):
                         variant="json-quote", key_of=_key, tag="_projects")
     loadfam.replay_load(run, loadfam.namespaced(pcases[:40]), "Trace_Value", "Trace_Value.cfg", build_features=("json", "quote"),
                         variant="json-quote", key_of=lambda c, r: "namespaced;" + _key(c, r), tag="_ns")
+    loadfam.replay_suppressed(run, pcases, "Trace_Value", "Trace_Value.cfg", _key)
     n_l2 = run_l2(run, pcases, 3 if quick else 40)
     run.notes["l2_render_events"] = n_l2
     run.notes["l2_many_locale_events"] = run_manyloc(run)
